@@ -90,10 +90,10 @@ func (i *interpreter) fmtValue(fr *frame, v value, t types.Type, verb byte, dept
 		}
 		if verb != 'd' && verb != 'T' {
 			if i.hasMethod(it.t, "Error") {
-				return i.callMethod(fr, it, "Error")
+				return i.fmtCallMethod(fr, it, "Error", verb)
 			}
 			if i.hasMethod(it.t, "String") {
-				return i.callMethod(fr, it, "String")
+				return i.fmtCallMethod(fr, it, "String", verb)
 			}
 		}
 		return i.fmtValue(fr, it.v, it.t, verb, depth)
@@ -402,4 +402,36 @@ func inFmtFprint(fr *frame, a []value) value {
 	s := inFmtSprintSep(fr, args, false)
 	n, err := fr.i.writeTo(fr, a[0].(iface), s)
 	return tuple{n, err}
+}
+
+// fmtCallMethod calls an Error / String method the way package fmt does:
+// a panic inside the method is caught (fmt's catchPanic); a nil pointer
+// receiver prints as <nil>, anything else as %!v(PANIC=String method: ...).
+func (i *interpreter) fmtCallMethod(fr *frame, it iface, name string, verb byte) (res value) {
+	depth, top := i.depth, i.top
+	defer func() {
+		p := recover()
+		if p == nil {
+			return
+		}
+		var msg string
+		switch p := p.(type) {
+		case targetPanic:
+			msg = i.panicString(p.v)
+		case runtimeError:
+			msg = p.Error()
+		default:
+			panic(p) // engine control flow (bounds, unsupported, infeasible)
+		}
+		i.depth, i.top = depth, top
+		if ptr, ok := it.v.(*value); ok && ptr == nil {
+			res = "<nil>"
+			return
+		}
+		if verb == 0 {
+			verb = 'v'
+		}
+		res = "%!" + string(verb) + "(PANIC=" + name + " method: " + msg + ")"
+	}()
+	return i.callMethod(fr, it, name)
 }
